@@ -106,7 +106,8 @@ TRIAGE_UNDECIDED = ('M0851',     # judged "marginal" by the triage itself
                     'M0448', 'M0868')
 # the triage named two properties; the check that decides it belongs to the
 # second one (the root cause)
-TRIAGE_PROPERTY = {'M1095': 'C02', 'M0662': 'C07'}
+TRIAGE_PROPERTY = {'M1095': 'C02', 'M0662': 'C07', 'M2348': 'C02',
+                   'M1223': 'C07', 'M1595': 'C07'}
 
 
 def triage_variants(prop):
